@@ -133,6 +133,12 @@ pub fn shape(r: &mut Rng, n: usize) -> Vec<u64> {
             }
         }
     }
+    // lengths are drawn in 64-bit limbs; in a build with 32-bit machine words half of the values get a top limb
+    // below 2^32, so that odd word counts (15 words, 25 words, ...) are explored as often as even ones
+    if dashu_int::Word::BITS == 32 && r.bool() {
+        let t = v[n - 1] & 0xffff_ffff;
+        v[n - 1] = if t == 0 { 1 } else { t };
+    }
     v
 }
 
